@@ -23,6 +23,7 @@ private:
     void printEscaped(const char* s);
     const UtestShell *currtest_;
     SimpleString currGroup_;
+    bool groupOpen_;
 };
 
 #endif
